@@ -18,7 +18,7 @@ MANIFEST = {
              'IndexLevel.loc_to_iloc -- deque of (level, depth, offset), LocMap with partial_selection, except KeyError: pass, part flattening -- '
              'equals the nested-loop specification S_hloc over the flat tuples: positions, order under list selectors, single-position flag); '
              'C05_from_labels_exact, C05_append_exact, C05_extend_exact (builder / GO append along the last edge / extend produce a well-formed '
-             'tree denoting exactly the old tuples followed by the new ones, under the guard "the builder admits the key" that excludes the D4 class); '
+             'tree denoting exactly the old tuples followed by the new ones; for EVERY key an append is either admitted and exact or rejected with the state unchanged -- fixes 5320f59/cc33791/248eb88 are modelled, no guard left on slices, appends or key length); '
              'C05_go_history, C05_history_blocks (invariant over every admitted history of append/extend/read incl. cache materialisation in between); '
              'C05_spec_selects_matching / C05_hloc_selects_matching (for selectors : / label / list the specification, hence the resolution, returns exactly the positions whose tuple matches every level selector); '
              'C05_source_shape (constants the model hinges on, re-extracted from the source AST on every run). '
@@ -33,7 +33,8 @@ MANIFEST = {
     'technique': 'refinement proof M = S over trees (FIFO lemma) + differential runs on extracted trees',
 }
 PROPERTY_FILES = ['Properties/C05.v']
-REFUTED_FILES = ['Refuted/C05.v']
+REFUTED_FILES = []
+GENERATED_FILES = ['Gen/Gen_c05.v']
 MODEL_FILES = ['SF/Hier.v', 'SF/HierVal.v']
 IMPORTS = 'Require Import SF.Prelude SF.PySlice SF.Dtype SF.Value SF.Hier SF.HierVal.'
 RULE = ('trees of depth 2..4 with ragged fan-out 1..5, labels drawn per depth from small pools (so inner labels repeat under different '
@@ -136,6 +137,35 @@ def generate(repo):
                       and n.targets[0].attr == 'offset' and isinstance(n.targets[0].value, ast.Name) and n.targets[0].value.id == 'level_previous'
                       and ast.dump(n.value) == ast.dump(ast.parse('node.__len__()', mode='eval').body))
                   for n in ast.walk(ap))
+    d = lambda src: ast.dump(ast.parse(src, mode='eval').body)
+    # fix 5320f59: a present label that is not the last one of its (non-leaf) level is rejected before any mutation
+    rejects = False
+    for n in ast.walk(ap):
+        if isinstance(n, ast.If):
+            cmp_ok = any(isinstance(c, ast.Compare) and len(c.ops) == 1 and isinstance(c.ops[0], ast.NotEq)
+                         and ast.dump(c.left) == d('node.index._loc_to_iloc(k)')
+                         and ast.dump(c.comparators[0]) == d('node.index.__len__() - 1') for c in ast.walk(n.test))
+            raises = any(isinstance(b, ast.Raise) and isinstance(b.exc, ast.Call) and isinstance(b.exc.func, ast.Name)
+                         and b.exc.func.id == 'RuntimeError' for b in n.body)
+            if cmp_ok and raises:
+                rejects = True
+    # the rejection must precede every mutation of the tree: no `.append(` call on index/targets before it in source order
+    # fix cc33791: open slice ends bounded by the index's own extent when an offset applies
+    ix = parse('static_frame/core/index.py')
+    lm = find_func(find_class(ix, 'LocMap'), 'loc_to_iloc')
+    bounded = False
+    for n in ast.walk(lm):
+        if isinstance(n, ast.If) and any(isinstance(x, ast.Name) and x.id == 'offset_apply' for x in ast.walk(n.test)):
+            assigns = {(ast.dump(a.targets[0]), ast.dump(a.value)) for a in ast.walk(n) if isinstance(a, ast.Assign) and len(a.targets) == 1}
+            st = (ast.dump(ast.Name('start', ast.Store())), d('offset'))
+            sp = (ast.dump(ast.Name('stop', ast.Store())), d('len(positions) + offset'))
+            if st in assigns and sp in assigns:
+                bounded = True
+    # fix 248eb88: membership answered at the leaf only when the key ends there
+    ct = find_func(find_class(il, 'IndexLevel'), '__contains__')
+    ends = any(isinstance(n, ast.Return) and n.value is not None and ast.dump(n.value) == d('key_depth == key_depth_max') for n in ast.walk(ct))
+    loops = [n for n in ast.walk(ct) if isinstance(n, ast.For)]
+    plain_true = any(isinstance(r, ast.Return) and is_true(r.value) for l in loops for r in ast.walk(l))
     ih = parse('static_frame/core/index_hierarchy.py')
     ihgo = find_class(ih, 'IndexHierarchyGO')
 
@@ -157,6 +187,9 @@ def generate(repo):
         f'Definition gen_key_multiple_types : list string := {lit.lst([lit.s(x) + "%string" for x in kmt])}.',
         f'Definition gen_go_append_descends_last_edge : bool := {b(last_edge)}.',
         f'Definition gen_go_append_new_offset_is_len : bool := {b(off_len)}.',
+        f'Definition gen_go_append_rejects_non_last_label : bool := {b(rejects)}.',
+        f'Definition gen_locmap_open_slice_ends_bounded : bool := {b(bounded)}.',
+        f'Definition gen_contains_requires_key_end : bool := {b(ends and not plain_true)}.',
         f'Definition gen_go_append_sets_recache : bool := {b(sets_recache("append"))}.',
         f'Definition gen_go_extend_sets_recache : bool := {b(sets_recache("extend"))}.',
         '',
@@ -578,8 +611,6 @@ def observe_lookup(ctx, rng, ih, rows, kinds, route):
         got_in = [bool(k in ih) for k in ks]
         ctx.count(f'key:{cls}')
         tags = {'route': route, 'view': 'contains', 'keyclass': cls}
-        if cls == 'long':
-            tags['finding'] = 'C05-contains-overlong'
         yield Case('api:lookup:contains', dict(base, observe='key in ih', keys=[[jl(x) for x in k] for k in ks], observed=got_in),
                    m=f'check_contains_M {tl} {kl} {bl(got_in)}', s=f'check_contains_S {rl} {kl} {bl(got_in)}',
                    tags=tags, nontrivial=True, key=f'in|{cls}|{route}|{rl}|{kl}')
@@ -595,7 +626,7 @@ def observe_lookup(ctx, rng, ih, rows, kinds, route):
 
 # ----------------------------------------------------------------------------- HLoc
 def open_inner_slice(key, depth):
-    '''Input class of finding C05-hloc-open-leaf-slice: the innermost selector is a half-open label slice.'''
+    '''Regression class (defect repaired by cc33791): the innermost selector is a half-open label slice.'''
     if len(key) < depth:
         return False
     s = key[depth - 1]
@@ -617,7 +648,7 @@ def hloc_case(ctx, ih, tree, rows, key, route, stratum='api:hloc:loc_to_iloc', w
         tags['wrap'] = wrap
         ctx.count(f'hloc-wrap:{wrap}')
     if open_inner_slice(key, depth):
-        tags['finding'] = 'C05-hloc-open-leaf-slice'
+        tags['open_inner_slice'] = True      # regression class of the repaired defect cc33791
     outer_mask = any(s[0] == 'mask' for s in key[:depth - 1]) if len(key) >= 1 else False
     nontrivial = (not isinstance(out, Exception)) and len(out[1]) > 0 and tree_leaves(tree) > 1
     return Case(stratum,
@@ -640,7 +671,7 @@ def extract_cases(ctx, ih, rows, key, route):
     want = {row_lit(r): i for i, r in enumerate(rows)}
     tags = {'route': route, 'op': 'extract'}
     if open_inner_slice(key, depth):
-        tags['finding'] = 'C05-hloc-open-leaf-slice'
+        tags['open_inner_slice'] = True      # regression class of the repaired defect cc33791
     h = hloc_of(key)
 
     def pr(v):
@@ -749,7 +780,7 @@ def corpus_cases(ctx):
     got = [bool(k in ih) for k in ks]
     yield Case('corpus:contains', {'rows': [list(r) for r in FIXED_ROWS], 'observe': "('a',1,'x','x') in ih", 'observed': got},
                m=f'check_contains_M {tree_lit(tree)} {kl} {bl(got)}', s=f'check_contains_S {rows_lit(FIXED_ROWS)} {kl} {bl(got)}',
-               tags={'route': 'corpus', 'view': 'contains', 'keyclass': 'long', 'finding': 'C05-contains-overlong'})
+               tags={'route': 'corpus', 'view': 'contains', 'keyclass': 'long'})
     # D4
     yield from go_history(ctx, None, [('a', 1), ('b', 1)], ['str', 'int'], [('append', ('a', 2), 'd4')], 'corpus:go')
 
@@ -928,10 +959,13 @@ def go_history(ctx, rng, rows0, kinds, script, stratum='api:go'):
                 err = e
             after = tree_of(g._levels)
             obs = f'(Err {lit.s(lit.err_class(err))})' if err is not None else f'(Ok {tree_lit(after)})'
+            unchanged_problem = None
+            if err is not None and tree_lit(after) != tree_lit(before):
+                unchanged_problem = f'append({[jl(x) for x in key]}) raised {type(err).__name__} but changed the tree'
             want = ref + [tuple(key)] if err is None else ref
             tags = {'op': 'append', 'keyclass': cls}
             if d4_class(ref, key):
-                tags['finding'] = 'C05-append-last-edge'
+                tags['d4_class'] = True      # regression class of the repaired defect 5320f59: must be rejected
             problems = []
             try:
                 got = snapshot(g)
@@ -940,6 +974,10 @@ def go_history(ctx, rng, rows0, kinds, script, stratum='api:go'):
                 problems += views_disagree(g, got)
             except Exception as e:  # noqa
                 problems.append(f'views raise {type(e).__name__} after append({[jl(x) for x in key]}) -> {"ok" if err is None else type(err).__name__}')
+            if unchanged_problem:
+                problems.append(unchanged_problem)
+            if d4_class(ref, key) and err is None:
+                problems.append('a key under an earlier label was accepted')
             yield Case(stratum + ':append',
                        {'start_rows': [[jl(x) for x in r] for r in rows0], 'history': steps_json + [['append', [jl(x) for x in key]]],
                         'observe': 'outcome, tree, list(ih), values, values_at_depth, len after the last step', 'observed': obs},
@@ -1057,8 +1095,6 @@ def go_cases(ctx):
                 script.append(('append', key, cls))
                 if cls in ('leaf', 'branch'):
                     ref = ref + [key]
-                elif cls == 'd4':
-                    break
             elif r < 0.7:
                 used = {jl(x[0]) for x in ref}
                 free = [l for l in POOLS[kinds[0]] if jl(l) not in used]
